@@ -1127,7 +1127,12 @@ class AstFn:
             else:
                 self.body.append("let (%s) = %s" % (", ".join(st[1]), render_ast(st[2])))
         fin = ast["fin"]
-        if fin[0] == "match":
+        if fin[0] == "smatch":
+            self.body.append("match %s with" % fin[1])
+            for i, body in enumerate(fin[2]):
+                self.body.append('| "%s" -> %s' % ("abcdefg"[i], render_ast(body)))
+            self.body.append("| %s -> %s" % (fin[3][0] or "_", render_ast(fin[3][1])))
+        elif fin[0] == "match":
             # (rules with a payload variable or without payload; a default rule)
             self.body.append("match %s with" % fin[1])
             for case, bind, body in fin[2]:
@@ -1231,6 +1236,10 @@ def kernels():
     # numbered by first occurrence in the signature (IRev<T0, T1>), not in field order (defect 31)
     K("k26a", ["p", "a", "b"], [["let", "l", ["slice", [V("p"), call("{IRev}", V("a"), V("b"))]]]], V("l"))
     K("k26b", ["p", "b"], [["let", "l", ["slice", [V("p"), call("{IRev}", LIT["int"], V("b"))]]]], pair(V("l"), _fld("p", "RSecond")))
+    # a string match: its target is a string, and so is the variable of its last rule (defect 32)
+    K("k27a", ["s"], [], ["smatch", "s", [LIT["int"]], ["", LIT["int"]]])
+    K("k27b", ["s", "t"], [], ["smatch", "s", [V("t")], ["v", V("v")]])
+    K("k27c", ["s", "t", "u"], [["let", "l", ["slice", [V("s"), V("u")]]]], ["smatch", "s", [pair(V("t"), V("l")), pair(LIT["int"], V("l"))], ["", pair(V("t"), V("l"))]])
     # explicit type arguments for a PREFIX of the type parameters: the others are instantiated freshly at every use
     PU = lambda a, b: call("ipair<int>", a, b)
     K("k25a", ["x", "y"], [], pair(PU(LIT["int"], V("x")), PU(LIT["int"], V("y"))))
